@@ -50,6 +50,8 @@ Pc(p, v) == pc' = [pc EXCEPT ![p] = v]
 TReset ==
   /\ Ev("reset")
   /\ wstate' = [w \in Writers |-> IF w \in LateOpen THEN "init" ELSE "open"]
+  /\ gates' = [w \in Writers |-> IF w \in LateOpen THEN {} ELSE WKeys[w]]
+  /\ wdone' = [w \in Writers |-> {}] /\ wyes' = [w \in Writers |-> {}]
   /\ wnext' = [w \in Writers |-> 1] /\ wq' = [w \in Writers |-> <<>>]
   /\ inlet' = <<>> /\ dcur' = NoFrame /\ didx' = 1 /\ conns' = <<>> /\ drun' = TRUE
   /\ sst' = [s \in Streamers |-> "Init"] /\ keys' = [s \in Streamers |-> {}]
@@ -108,7 +110,7 @@ TQuiesce == Ev("quiesce") /\ PipeEmpty /\ Step /\ UNCHANGED <<vars, pc, cbuf, wi
 Lossy == Ready = {}
 Read(s) == [s |-> s, w |-> dcur.w, q |-> dcur.q] \in will
 SysNoRecv ==
-  \/ \E w \in Writers : WriterPush(w)
+  \/ WriterSys
   \/ DeltaTake
   \/ \E s \in Streamers : \/ DeltaSendTo(s) /\ (Lossy => Read(s))
                           \/ DeltaTimeout(s) /\ ~Read(s)
